@@ -30,6 +30,8 @@ def strategy_(g):
     tol = 10.0 ** g.rnd.uniform(-12, -2)
     f = 10.0 ** (g.rnd.uniform(-12, -3) if rel == "below" else g.rnd.uniform(3, 6))
     case = {"level": level, "rel": rel, "tol": tol, "f": f, "sel": [g.rnd.randrange(10**6) for _ in range(4)]}
+    # structurally different objects may hold the very same pose / information / measurement OBJECTS (not just equal values)
+    case["share_objects"] = g.choice([False, True])
     s = g.choice([0.0, 1.0, 10.0, 1e3])
     if level in ("pose", "vertex"):
         k = g.kind()
@@ -37,6 +39,8 @@ def strategy_(g):
         case["ida"] = g.ids(1)[0]
         case["b"] = g.pose(g.kind(), s=s)  # for mixed pairs
         case["struct"] = g.choice(["id", "type-same-numbers", "type", "subclass"]) if level == "vertex" else g.choice(["type-same-numbers", "type", "subclass"])
+        # R^n poses keep a view of the caller's float64 array: x and y may be two columns of one point table (one buffer)
+        case["table"] = g.choice([False, False, True])
     elif level == "edge":
         kind = g.choice(["builtin", "builtin", "custom"])
         if kind == "builtin":
@@ -184,6 +188,20 @@ def check(case, ctx):
             if rel != "copy":
                 name, arr = _numeric_slots(level, y)[0]
                 _perturb(arr, sel[0], f, tol)
+            if case.get("table") and case["a"]["k"] in ("r2", "r3"):
+                # the same two value sets, stored as interleaved columns of one (n x 2) table that the poses are views of
+                ctx.event("poses-are-views-of-one-buffer")
+                px, py = (x, y) if level == "pose" else (x.pose, y.pose)
+                table = np.empty((len(px), 2), dtype=np.float64)
+                table[:, 0], table[:, 1] = np.asarray(px), np.asarray(py)
+                cls_ = gs.CLS[case["a"]["k"]]
+                vx, vy = cls_(table[:, 0]), cls_(table[:, 1])
+                if not (np.shares_memory(vx, table) and np.shares_memory(vy, table)):
+                    ctx.event("buffer-view-not-kept")
+                if level == "pose":
+                    x, y = vx, vy
+                else:
+                    x, y = gs.Vertex(case["ida"], vx), gs.Vertex(case["ida"], vy)
             return _expect(ctx, level, x, y, tol, rel != "above", "%s of %s" % (rel, case["a"]["k"]))
         if rel == "mixed":
             y = mk(case["b"])
@@ -194,8 +212,10 @@ def check(case, ctx):
             return _expect(ctx, level, x, y, tol, False, "%s vs %s" % (case["a"]["k"], case["b"]["k"]))
         st = case["struct"]
         if st == "id":
-            y = gs.Vertex(case["ida"] + 1 + sel[1] % 5, gs.mk_pose(case["a"]))
-            return _expect(ctx, level, x, y, tol, False, "different id")
+            y = gs.Vertex(case["ida"] + 1 + sel[1] % 5, x.pose if case.get("share_objects") else gs.mk_pose(case["a"]))
+            if case.get("share_objects"):
+                ctx.event("struct:shared-member-objects")
+            return _expect(ctx, level, x, y, tol, False, "different id" + (", one shared pose object" if case.get("share_objects") else ""))
         k = case["a"]["k"]
         if st == "subclass":
             Sub = type("Derived" + gs.CLS[k].__name__, (gs.CLS[k],), {})
@@ -249,6 +269,13 @@ def check(case, ctx):
         st = case["struct"]
         y = _build_edge(case["ea"])
         ctx.event("struct:" + st)
+        if case.get("share_objects") and st in ("ids", "ids-count", "offset-id", "info-shape", "estimate-type", "estimate-pose-type", "offset-type"):
+            # y holds x's own member objects wherever the structural change below does not replace them
+            ctx.event("struct:shared-member-objects")
+            y.information = x.information
+            y.estimate = x.estimate
+            if isinstance(x, gs.EdgeLandmark):
+                y.offset = x.offset
         if st == "ids":
             y.vertex_ids = list(y.vertex_ids)
             y.vertex_ids[sel[1] % len(y.vertex_ids)] += 1 + sel[2] % 3
